@@ -228,3 +228,12 @@ def run(res, ctx):
         "traces_validated_against_impl": st["evaluations"],
     })
     res.assumptions += ["under rust_decimal rounding the identity holds up to rounding noise; the residual is measured (max_abs_residual), the exact identity is the theorem"]
+
+
+def replay(res, ctx, path):
+    def judge(r):
+        c = corecheck._Collect()
+        conservation(r, c, collections.Counter())
+        stat, probs = renderoracle.check_run(r, groups=("over", "acb")) if r["hc"].get("render") else ("skip", [])
+        return c.msgs + ([m for _, m in probs] if stat == "ok" else [])
+    return corecheck.replay(res, ctx, path, judge=judge)
